@@ -113,6 +113,14 @@ def check(repo: Repo) -> Result:
                         fresh = isinstance(recv, (ast.BinOp, ast.Call))
                         res.check(fresh, f"{mod.rel.split('/')[-1]}:{q}:{norm(recv)[:40]}", f.where(c), "simplify() rewrites its receiver in place; calling it on a named / shared unit changes that unit's expression (and hash) for every holder", "receiver is a temporary (result of an operation)", norm(recv), rid=r3)
 
+    # a receiver written as `a * b` is a temporary only if the operator builds a new object on every path: an
+    # identity shortcut (`return self` for a dimensionless factor) would hand the caller's own unit to simplify()
+    from rules.common import unit_operators_returning_operand
+
+    for mf, shared in unit_operators_returning_operand(repo):
+        res.fn(mf)
+        res.check(not shared, f"operator-result-fresh:{mf.qualname}", mf.where(), f"{mf.qualname} returns one of its operands unchanged on some path; the library applies the in-place simplify() to operator results ((unit1 * unit2).simplify()), which would then rewrite the operand's own expression (and hash) although the call is documented to return a new object", "a newly built Unit on every path", shared, rid=r3)
+
     # R4: _cancel_mul hand-over
     r4 = res.rule("C05-R4", "_cancel_mul: the factor that replaces a cancelled pair is the pair's scale, only for a dimensionless pair", floor=3)
     fn = uo.func("_cancel_mul")
